@@ -3416,6 +3416,24 @@ impl RaftNode {
             self.persist_term_and_vote(metadata.last_included_term, None)?;
         }
 
+        // Persist the snapshot's log BEFORE replacing the in-memory log: the WAL is the only
+        // durable copy a restart recovers from. Without this a restarted node came back with
+        // just the entries appended after the install (at the wrong positions) and had lost
+        // entries it had already acknowledged to the leader. Entries first, truncation of the
+        // old suffix last, so a crash in between leaves new prefix + old suffix.
+        if let Some(ref wal) = self.wal {
+            for entry in &entries {
+                self.persist_log_entry(entry)?;
+            }
+            wal.lock()
+                .append(&crate::raft_wal::RaftWalEntry::LogTruncate {
+                    from_index: metadata.last_included_index + 1,
+                })
+                .map_err(|e| {
+                    ChainError::StorageError(format!("WAL snapshot install persist failed: {e}"))
+                })?;
+        }
+
         // Install the snapshot
         let mut persistent = self.persistent.write();
         // Replace log with entries from snapshot - reset base since we have
